@@ -52,6 +52,35 @@ async def gated(*a: Any, **k: Any) -> str:
     return "g"
 
 
+async def _inner(*a: Any, **k: Any) -> str:
+    _rec("inner-of-decorated", a, k)
+    return "i"
+
+
+def _decorate(fn: Any) -> Any:
+    import functools
+
+    @functools.wraps(fn)
+    async def wrapper(*a: Any, **k: Any) -> str:
+        _rec("decorated", a, k)         # what the decorator adds: observable, so that running the bare function shows
+        return await fn(*a, **k)
+    return wrapper
+
+
+# a decorated worker (functools.wraps sets __wrapped__): the object behind the dotted path is the wrapper
+decorated = _decorate(_inner)
+
+
+def _decorate_cb(fn: Any) -> Any:
+    import functools
+
+    @functools.wraps(fn)
+    def wrapper(task_id: int) -> None:
+        cbs.append(("decorated", task_id))
+        fn(task_id)
+    return wrapper
+
+
 async def boom(*a: Any, **k: Any) -> None:
     _rec("boom", a, k)
     raise RuntimeError("boom")
@@ -85,3 +114,6 @@ def open_all() -> None:
 
 alt = quick
 altcb = ecb
+
+
+deco_cb = _decorate_cb(ecb)
